@@ -32,9 +32,23 @@ var (
 func mk(v *big.Int) *FE {
 	e := new(FE)
 	if _, err := e.SetCanonicalBytes(ref.A32(v)); err != nil {
-		panic("mk: canonical value rejected: " + v.Text(16))
+		// the decoder rejects a canonical value: that is itself a violation; keep exploring with an
+		// object built through the limb hook (stored limbs = v * 2^256 mod p)
+		R.Fail("field/SetCanonicalBytes rejects a canonical value", "decode", map[string]any{"bytes": hexv(v), "mismatch": "canonical value in [0,p) rejected: " + err.Error()}, nil)
+		e = new(FE)
+		secp256k1.VerifFESetLimbs(e, bigToLimbs(ref.FpMul(v, ref.R256)))
 	}
 	return e
+}
+
+func bigToLimbs(v *big.Int) (l [4]uint64) {
+	m := new(big.Int).SetUint64(^uint64(0))
+	t := new(big.Int).Set(v)
+	for i := 0; i < 4; i++ {
+		l[i] = new(big.Int).And(t, m).Uint64()
+		t.Rsh(t, 64)
+	}
+	return
 }
 
 func hexv(v *big.Int) string { return fmt.Sprintf("%064x", v) }
